@@ -130,17 +130,21 @@ func (s *svc) Finish(a jrpc2.Assigner, st jrpc2.ServerStatus) {
 		flag += "closed"
 	}
 	e := event{kind: "finish", k: s.id, flag: flag, sameAs: a == s.asg}
+	// counted and logged in one critical section: two services finishing at the
+	// same moment must appear in the log in the order in which they counted
 	s.w.mu.Lock()
 	for _, c := range s.w.chans {
 		if c.RecvInProgress() {
 			e.inRecv++
 		}
 	}
-	s.w.mu.Unlock()
 	if st.Err != nil {
 		e.err = st.Err.Error()
 	}
-	s.w.log(e)
+	e.seq = len(s.w.events)
+	e.step = s.w.step
+	s.w.events = append(s.w.events, e)
+	s.w.mu.Unlock()
 }
 
 type lassign struct {
